@@ -9,6 +9,7 @@ from sa.feval import feval
 from sa.model import AnalysisError, loc, norm_src
 
 from .c02 import find_parser
+from .common import attr_chain
 from .encode_model import guards_of, parent_map
 
 MUT = {"add", "update", "discard", "remove", "pop", "clear", "difference_update", "intersection_update", "symmetric_difference_update"}
@@ -182,8 +183,18 @@ def block_rules(an: Analysis, rep):
             f"`{S}` = {norm_src(sorted_assign.value) if sorted_assign is not None else T}", nontrivial=False)
     # R13.4
     idx = [n for n in ast.walk(loop2) if isinstance(n, ast.Call) and isinstance(n.func, ast.Attribute) and n.func.attr == "index"]
+    bis = [n for n in ast.walk(loop2) if isinstance(n, ast.Call) and (attr_chain(n.func) or "").split(".")[-1] in ("bisect_left", "bisect", "bisect_right")]
+    part = [n for n in bis if len(n.args) > 2 or n.keywords]
+    if part:
+        raise AnalysisError(f"{f.qual}: `{norm_src(part[0])}` searches only a part of the sorted target list: whether that part always contains the target (a jump to the "
+                            f"instruction itself, to the current block, ...) is a loop invariant this check does not decide")
+    whole = [n for n in bis if len(n.args) == 2 and (attr_chain(n.func) or "").split(".")[-1] == "bisect_left" and isinstance(n.args[0], ast.Name) and n.args[0].id == S]
     ok_i = len(idx) == 1 and isinstance(idx[0].func.value, ast.Name) and idx[0].func.value.id == S and is_sorted \
         and isinstance(idx[0].args[0], ast.Attribute) and idx[0].args[0].attr == "target"
+    if not idx and len(whole) == 1 and is_sorted:
+        # bisect_left over the whole sorted list of distinct targets is the index of a member
+        idx = whole
+        ok_i = True
     rep.add("R13.4", f"{f.qual}::target replaced by its index in the sorted target list", bool(ok_i), loc(f.module, idx[0]) if idx else loc(f.module, loop2),
             f"`{norm_src(idx[0])}` on the sorted block-start list `{S}`: target k is the k-th block" if ok_i else
             f"jump targets are not replaced by their position in the sorted target list that drives block creation" + ("" if is_sorted else f" (`{S}` is not sorted({T}))"))
